@@ -6,9 +6,9 @@ ids="$@"; [ -z "$ids" ] && ids=$(ls seeded | grep -v RESULTS)
 for id in $ids; do
   prop=${id%%-*}
   t0=$(date +%s)
-  out=$(tools/with_patch.sh seeded/$id/patch.diff ./check $prop 2>&1); rc=$?
+  out=$(VERIF_EVIDENCE_DIR=/tmp/ev_seed_$$ tools/with_patch.sh seeded/$id/patch.diff ./check $prop 2>&1); rc=$?; rm -rf /tmp/ev_seed_$$
   t1=$(date +%s)
   viol=$(echo "$out" | grep -c "^VIOLATION property=$prop")
-  how=$(echo "$out" | grep -E "failed obligation|failing input" | head -2 | cut -c1-160 | tr '\n' '|')
+  how=$(echo "$out" | grep -E "failed obligation|failing input" | head -3 | cut -c1-200 | tr '\n' '|')
   echo -e "$id\t$prop\texit=$rc\tviolations=$viol\t$((t1-t0))s\t$how" | tee -a seeded/RESULTS.tsv
 done
